@@ -514,6 +514,95 @@ class Peel(_Settings, CartesianProductStrategy):
 
 
 # --------------------------------------------------------------------------
+# Factor: a product of two classes that are not atoms
+# --------------------------------------------------------------------------
+class Factor(_Settings, CartesianProductStrategy):
+    """If the alphabet splits into S1 | S2 such that no letter of S2 may be
+    followed by a letter of S1 (every such two-letter word contains a pattern),
+    the prefix is over S1 and every other pattern lies within one part (or
+    contains a forbidden S2-S1 step and is therefore redundant), then every word
+    is uniquely u v with u over S1 and v over S2:
+
+        C(S, p, P) = C(S1, p, P|S1) x C(S2, "", P|S2).
+
+    Neither factor is an atom; the second contains the empty word."""
+
+    SETTINGS = ("cut", "flip", "swap", "xf_left", "xf_right")
+
+    def __init__(self, cut=0, flip=False, swap=False, xf_left="id", xf_right="id", **kw):
+        self.cut = int(cut)
+        self.flip = bool(flip)
+        self.swap = bool(swap)
+        self.xf_left = xf_left
+        self.xf_right = xf_right
+        super().__init__(**kw)
+
+    def _parts(self, c: WC):
+        if c.just_prefix or c.strict or len(c.alphabet) < 2 or c.is_empty():
+            return None
+        cut = 1 + self.cut % (len(c.alphabet) - 1)
+        s1, s2 = c.alphabet[:cut], c.alphabet[cut:]
+        if self.flip:
+            s1, s2 = s2, s1
+        if any(l not in s1 for l in c.prefix):
+            return None
+        for b in s2:
+            for a in s1:
+                if not any(p in b + a for p in c.patterns):
+                    return None
+        p1, p2 = [], []
+        for p in c.patterns:
+            if all(l in s1 for l in p):
+                p1.append(p)
+            elif all(l in s2 for l in p):
+                p2.append(p)
+            elif any(p[i] in s2 and p[i + 1] in s1 for i in range(len(p) - 1)):
+                continue  # can never occur
+            else:
+                return None  # a pattern across the cut: not a product
+        return s1, s2, tuple(p1), tuple(p2)
+
+    def _children_and_maps(self, c: WC):
+        parts = self._parts(c)
+        if parts is None:
+            return None
+        s1, s2, p1, p2 = parts
+        left = transform(c.derive(alphabet=s1, patterns=p1), FLAGSETS[self.xf_left])
+        right = transform(c.derive(alphabet=s2, prefix="", patterns=p2), FLAGSETS[self.xf_right])
+        return [right, left] if self.swap else [left, right]
+
+    def decomposition_function(self, c: WC):
+        cm = self._children_and_maps(c)
+        if cm is None:
+            return None
+        return tuple(ch for ch, _ in cm)
+
+    def extra_parameters(self, comb_class, children=None):
+        cm = self._children_and_maps(comb_class)
+        if cm is None:
+            raise StrategyDoesNotApply("Strategy does not apply")
+        return tuple(m for _, m in cm)
+
+    def formal_step(self) -> str:
+        return f"factor the word at the cut {self.cut}" + (" (flipped)" if self.flip else "") + (" (swapped)" if self.swap else "")
+
+    def forward_map(self, comb_class, obj, children=None):
+        s2 = self._parts(comb_class)[1]
+        i = next((j for j, l in enumerate(obj) if l in s2), len(obj))
+        u, v = W(obj[:i]), W(obj[i:])
+        return (v, u) if self.swap else (u, v)
+
+    def backward_map(self, comb_class, objs, children=None):
+        if self.swap:
+            yield W(objs[1] + objs[0])
+        else:
+            yield W(objs[0] + objs[1])
+
+    def __str__(self):
+        return self.formal_step()
+
+
+# --------------------------------------------------------------------------
 # unary equivalences
 # --------------------------------------------------------------------------
 class _Unary(_Settings, DisjointUnionStrategy):
@@ -961,6 +1050,7 @@ STRATEGY_CLASSES = {
     "Expand": Expand,
     "SplitAtom": SplitAtom,
     "Peel": Peel,
+    "Factor": Factor,
     "Reduce": Reduce,
     "StatXf": StatXf,
     "StatPerm": StatPerm,
